@@ -290,6 +290,44 @@ Proof.
 Qed.
 
 (* ---------- determinism: the result is a function of the SETS of nodes and accounts ---------- *)
+Lemma find_ent_perm ents ents' a :
+  Permutation ents ents' -> NoDup (map e_addr ents) -> find_ent ents a = find_ent ents' a.
+Proof.
+  unfold find_ent. induction 1 as [|x l l' H IH|x y l|l l' l'' H1 IH1 H2 IH2]; intros Hnd; cbn [find map] in *.
+  - reflexivity.
+  - inversion Hnd; subst. destruct (e_addr x =? a); [reflexivity|apply IH; assumption].
+  - inversion Hnd as [|? ? Hy Hr]; subst.
+    destruct (e_addr y =? a) eqn:Ey, (e_addr x =? a) eqn:Ex; try reflexivity.
+    exfalso. apply Hy. left. lia.
+  - rewrite IH1 by exact Hnd. apply IH2.
+    eapply Permutation_NoDup; [apply Permutation_map; exact H1|exact Hnd].
+Qed.
+Lemma slash_addrs addr amt ents : map e_addr (map (slash_one addr amt) ents) = map e_addr ents.
+Proof.
+  rewrite map_map. apply map_ext. intros e. unfold slash_one. destruct (e_addr e =? addr); reflexivity.
+Qed.
+Lemma freeze_ids id u nodes : map n_id (map (freeze_one id u) nodes) = map n_id nodes.
+Proof.
+  rewrite map_map. apply map_ext. intros n. unfold freeze_one. destruct (n_id n =? id); reflexivity.
+Qed.
+Lemma post_state_perm sl : forall ents ents' nodes nodes' fl,
+  Permutation ents ents' -> NoDup (map e_addr ents) ->
+  Permutation nodes nodes' -> NoDup (map n_id nodes) ->
+  let a := fold_left apply_slash sl (ents, nodes, fl) in
+  let b := fold_left apply_slash sl (ents', nodes', fl) in
+  Permutation (fst (fst a)) (fst (fst b)) /\ NoDup (map e_addr (fst (fst a))) /\
+  Permutation (snd (fst a)) (snd (fst b)) /\ NoDup (map n_id (snd (fst a))) /\ snd a = snd b.
+Proof.
+  induction sl as [|[[addr amt] fr] r IH]; intros ents ents' nodes nodes' fl He Hne Hn Hnn; cbn [fold_left].
+  - cbn [fst snd]. tauto.
+  - cbn [apply_slash]. unfold escrow_of. rewrite (find_ent_perm _ _ addr He Hne).
+    apply IH.
+    + apply Permutation_map. exact He.
+    + rewrite slash_addrs. exact Hne.
+    + destruct fr as [[id u]|]; [apply Permutation_map|]; exact Hn.
+    + destruct fr as [[id u]|]; [rewrite freeze_ids|]; exact Hnn.
+Qed.
+
 Theorem elect_deterministic i i' :
   Permutation (i_nodes i) (i_nodes i') -> NoDup (map n_id (i_nodes i)) ->
   Permutation (i_ents i) (i_ents i') -> NoDup (map e_addr (i_ents i)) ->
@@ -297,12 +335,16 @@ Theorem elect_deterministic i i' :
   i_perm_e i = i_perm_e i' -> i_perm_n i = i_perm_n i' -> i_perm_c i = i_perm_c i' ->
   i_current i = i_current i' -> i_fv261 i = i_fv261 i' -> i_vrf i = i_vrf i' ->
   i_base i = i_base i' -> i_changed i = i_changed i' -> i_slashed i = i_slashed i' ->
+  i_slashes i = i_slashes i' ->
   run_epoch i = run_epoch i'.
 Proof.
-  intros Hn Hnn He Hne E1 E2 E3 E4 E5 E6 E7 E8 E9 E10 E11 E12.
-  unfold run_epoch, committee_nodes, vrf_blocked, committee_srcs.
-  rewrite (sort_by_unique n_id _ _ Hn Hnn), (sort_by_unique e_addr _ _ He Hne).
-  rewrite E1, E2, E3, E4, E5, E6, E7, E8, E9, E10, E11, E12. reflexivity.
+  intros Hn Hnn He Hne E1 E2 E3 E4 E5 E6 E7 E8 E9 E10 E11 E12 E13.
+  unfold run_epoch, committee_nodes, vrf_blocked, committee_srcs, post_ents, post_nodes, post_slashed, post_state.
+  rewrite <- E13, <- E12.
+  destruct (post_state_perm (i_slashes i) _ _ _ _ (i_slashed i) He Hne Hn Hnn) as [P1 [P2 [P3 [P4 P5]]]].
+  cbv zeta in P1, P2, P3, P4, P5.
+  rewrite (sort_by_unique n_id _ _ P3 P4), (sort_by_unique e_addr _ _ P1 P2), P5.
+  rewrite E1, E2, E3, E4, E5, E6, E7, E8, E9, E10, E11. reflexivity.
 Qed.
 
 (* ---------- the validator diff ---------- *)
